@@ -8,9 +8,18 @@ def cases(tier, seed):
     rng = random.Random(seed * 2221 + 1)
     pool = [g for g, _ in G.grammars('quick', seed, n_random=400, exhaustive_prods=2)]
     n = 2500 if tier == 'quick' else 25000
+    for i in range(n // 4):
+        a, b = cross_named(rng)
+        yield {'A': S.to_json(a), 'B': S.to_json(b), 'same': False}
     for i in range(n):
         a, b = rng.choice(pool), rng.choice(pool)
         yield {'A': S.to_json(a), 'B': S.to_json(b), 'same': rng.random() < 0.08}
+
+
+def cross_named(rng):
+    a = S.random_grammar(rng, ['S', 'A'], ['x', 'y'], 3, rng.choice([2, 3, 4]))
+    b = S.random_grammar(rng, ['T', 'B'], ['A', 'S', 'y'], 3, rng.choice([2, 3, 4]))      # terminals of b are named like variables of a
+    return (a, b) if rng.random() < 0.5 else (b, a)
 
 
 def check(case):
